@@ -265,6 +265,48 @@ func badProgram() *telemetry.ProgramReport {
 	return p
 }
 
+// confusedProgram: a fully approved program report with exactly ONE item added
+// that the configuration knows, but under another kind, another program or
+// another counter ("kind confusion").  Counters and stacks are separate
+// tables per program: every such report must be refused.
+func confusedProgram() (*telemetry.ProgramReport, string) {
+	p := goodProgram()
+	gopls := p.Program == "golang.org/x/tools/gopls"
+	if p.Counters == nil {
+		p.Counters = map[string]int64{}
+	}
+	if p.Stacks == nil {
+		p.Stacks = map[string]int64{}
+	}
+	pick := func(forGopls, forGo []string) string {
+		if gopls {
+			return Pick(vrnd, forGopls)
+		}
+		return Pick(vrnd, forGo)
+	}
+	switch vrnd.Intn(6) {
+	case 0: // (a) a configured STACK name of the same program used as a plain counter
+		p.Counters[pick([]string{"gopls/bug"}, []string{"go/crash"})] = 1 + vrnd.Int63n(9)
+		return p, "stack-name-as-counter"
+	case 1: // (b) a configured counter of ANOTHER program
+		p.Counters[pick([]string{"go/invocations", "flag:a", "go/extra"}, []string{"editor:vim", "plain", "editor:other"})] = 1
+		return p, "counter-of-other-program"
+	case 2: // (c) an expansion prefix without its bucket
+		p.Counters[pick([]string{"editor", "editor:"}, []string{"flag", "flag:"})] = 1
+		return p, "counter-prefix-without-bucket"
+	case 3: // (d) a bucket of another counter
+		p.Counters[pick([]string{"editor:a", "editor:b", "plain:vim", "editor:plain"}, []string{"flag:vim", "flag:emacs", "go/invocations:a", "go/extra:b"})] = 1
+		return p, "bucket-of-other-counter"
+	case 4: // (e) a configured COUNTER name used as a stack
+		p.Stacks[pick([]string{"plain", "editor:vim", "plain\nmain.f:1", "editor:emacs\nruntime.main:2"},
+			[]string{"go/invocations", "flag:a", "go/extra\nmain.main:1", "flag:b\nx:3"})] = 1
+		return p, "counter-name-as-stack"
+	default: // (f) a stack name of another program
+		p.Stacks[pick([]string{"go/crash", "go/crash\nmain.main:3"}, []string{"gopls/bug", "gopls/bug\nruntime.main:1"})] = 1
+		return p, "stack-of-other-program"
+	}
+}
+
 func goodSpec(pool [][2]string) *vreportSpec {
 	wx := Pick(vrnd, pool)
 	s := &vreportSpec{week: wx[0], xLiteral: wx[1], lastWeek: Pick(vrnd, []string{"", "2023-12-25", "x"}),
@@ -301,8 +343,21 @@ func plain(b []byte) *vbody { return &vbody{prefix: b, pad: ' '} }
 // genBody returns the body and a label for the input distribution
 func genBody(pool [][2]string, limit int) (*vbody, string) {
 	switch k := vrnd.Intn(100); {
-	case k < 30:
+	case k < 23:
 		return plain(goodSpec(pool).body()), "valid"
+	case k < 30: // one item of an otherwise fully valid report is of the wrong kind / program / counter
+		s := goodSpec(pool)
+		s.programsRaw = ""
+		s.programs = nil
+		for i := vrnd.Intn(2); i > 0; i-- {
+			s.programs = append(s.programs, goodProgram())
+		}
+		cp, label := confusedProgram()
+		s.programs = append(s.programs, cp)
+		if vrnd.Bool() {
+			s.programs[0], s.programs[len(s.programs)-1] = s.programs[len(s.programs)-1], s.programs[0]
+		}
+		return plain(s.body()), "confusion-" + label
 	case k < 38: // invalid week
 		s := goodSpec(pool)
 		s.week = Pick(vrnd, vhostileWeeks)
